@@ -1,4 +1,4 @@
-import PsecModel
+import PsecModel.Exec
 /-!
 # Driver operations: decoding of protocol tokens, dispatch to model / spec definitions, encoding of replies
 
@@ -235,6 +235,12 @@ def handle (st : DState) : List String → P (DState × String)
   | ["spec.wellformed", fmt, blk, pin] => do
     let f ← decNat fmt
     pure (st, replyBool (Spec.wellFormed f (nibFill f) (Spec.bytesToNibs (← decBytes blk)) (← decStr pin)))
+  | ["spec.tr31_unwrap", k, s] => do
+    match Spec.TR31.unwrap c (← decBytes k) (← decStr s) with
+    | some (h, key) => pure (st, "ok\t" ++ encHeader h ++ "\t" ++ encB key)
+    | none => pure (st, "err\tinvalid")
+  | ["spec.tr31_build", k, h, forms, pm, key, pad, lower] => do
+    pure (st, replyS (.ok (Spec.TR31.build c (← decBytes k) (← decHeader h) (← decStr forms) (← decNat pm) (← decBytes key) (← decBytes pad) ((← decNat lower) != 0))))
   | ["spec.decode", fmt, blk] => do
     let f ← decNat fmt
     match Spec.specDecode f (nibFill f) (Spec.bytesToNibs (← decBytes blk)) with
